@@ -43,9 +43,19 @@ def run(P, tier="quick"):
                 if m.k == "BinaryOperator" and m.op in ("==", "!=") and not m.macros:
                     a, b = m.kids[0].strip(), m.kids[1].strip()
                     for x, y in ((a, b), (b, a)):
+                        if y.k == "CharacterLiteral" and not y.macros and x.k == "DeclRefExpr" and x.refkind == "local" and \
+                                "char" in (x.ctype or x.type or ""):
+                            # `const char c = key[pos];` hoisted in front of the test
+                            d = [v for v in f.vardecls() if v.get("decl") == x.refdecl and v.kids and v.kids[0] is not None]
+                            if d and d[0].kids[0].strip().k == "ArraySubscriptExpr":
+                                x = d[0].kids[0].strip()
                         if y.k == "CharacterLiteral" and not y.macros and x.k == "ArraySubscriptExpr":
                             lits.add(y.val)
                             base = x.kids[0].strip().text()
+                if m.k == "DeclRefExpr" and base is None and m.refkind == "local" and m.macros and "char" in (m.ctype or m.type or ""):
+                    d = [v for v in f.vardecls() if v.get("decl") == m.refdecl and v.kids and v.kids[0] is not None]
+                    if d and d[0].kids[0].strip().k == "ArraySubscriptExpr":
+                        base = d[0].kids[0].strip().kids[0].strip().text()
                 if m.k == "ArraySubscriptExpr" and base is None and m.kids[0].strip().k == "DeclRefExpr" and "char" in (m.kids[0].strip().ctype or ""):
                     base = m.kids[0].strip().text()
             groups.setdefault((list(fams)[0], base), []).append((s, frozenset(lits)))
